@@ -159,7 +159,7 @@ def classify_model(y):
 
 
 def run_matrix(chk, accepted, dbgs=(0, 1), args_of=lambda g: [(n, v) for (n, _, v) in g.params], cmd="run",
-               max_assign=None, on_case=None, fixed_witnesses=False):
+               max_assign=None, on_case=None, fixed_witnesses=False, pruned=False):
     """Gate D for C01: for every accepted program and witness assignment, the implementation (satisfy ->
     encode -> decode -> Bit Machine) succeeds exactly when the model's source semantics returns unit.
     The EXPECT witness is set (a) to the value the source semantics computes for the observed expression
@@ -204,6 +204,8 @@ def run_matrix(chk, accepted, dbgs=(0, 1), args_of=lambda g: [(n, v) for (n, _, 
         mb = model("core", ml)
         for (g, a, kind), x, y, iline in zip(jobs, ia, mb, il):
             ci = classify_impl(x)
+            if pruned and ci == "sat-error":
+                ci = "failed"   # satisfy_with_env(Some(env)) reports a failing run as Err
             s, e, obs = classify_model(y)
             chk.case(iline, nontrivial=True, sample={"program": g.text[:400], "witness": bindings_sx(a)[:200], "debug": dbg, "implementation": ci, "source_semantics": s})
             chk.count("run.%s.%s" % (kind, ci))
